@@ -1,5 +1,5 @@
 """Property table: which spec modules, ground obligations, replay harness and texts serve each property."""
-from . import ground, replay
+from . import ground, replay, bounded
 
 COMMON_ASSUME = [
     "S1 python int is a mathematical integer",
@@ -395,19 +395,23 @@ PROPS = {
         replay=replay.generic, category="other",
         trusted_base=["the rows are evaluated on the imported real modules (exhaustive enumeration of a finite table)"],
         assumptions=COMMON_ASSUME + [
-            "NOT DECIDED: the parametric round trip (generate_avps_from_defs / assign_attr_from_defs: set attributes -> exactly "
+            "NOT PROVED: the parametric round trip (generate_avps_from_defs / assign_attr_from_defs: set attributes -> exactly "
             "one AVP each -> decoded back, encode-decode-encode = encode) and the attribute exposure of untyped commands "
-            "(_assign_attr_values): these functions use getattr/setattr with computed names and recursion over containers and "
-            "are only used through assumed contracts (assign_attr_from_defs, UndefinedMessage.__post_init__); no bounded "
-            "stand-in was built either, so this check does NOT establish the round-trip clauses of C03"],
+            "(_assign_attr_values) use getattr/setattr with computed names and recursion over containers; they are covered "
+            "only by a BOUNDED stand-in (props/bounded.py: every concrete command class x every row with one type-directed "
+            "value, list attributes of 2 elements, nested containers to depth 3, one undeclared vendor AVP, one untyped "
+            "command with repeated AVPs whose first value is falsy); reported under coverage.bounded and never counted as "
+            "discharged obligations"],
+        bounded=[bounded.c03_round_trip],
         level_text="Partial: (ground, exhaustive over all 2821 rows of all command classes and grouped containers) every declared "
                    "attribute denotes exactly one dictionary AVP, a grouped one exactly when it has a container class, no two "
                    "rows of a class denote the same AVP or share a name; (deductive) validate_message_avps names exactly the "
                    "required-and-unset rows, and every generated __post_init__ of the typed command classes only touches the "
                    "header code/flags, the AVP list and the object's own attributes and raises only AvpDecodeError. The "
-                   "value round-trip clauses of the property are not decided; hence category `other`.",
-        level_note="Table well-formedness exhaustively; round trip not decided (neither proved nor bounded).",
+                   "value round-trip clauses of the property are only checked by a bounded stand-in on the real modules "
+                   "(all classes x all rows x one value, depth 3), not proved; hence category `other`.",
+        level_note="Table well-formedness exhaustively; round trip by a labelled bounded stand-in only (not proved).",
         explanation="Exhaustive ground rows over the real attribute tables plus the contracts that consume those tables; the "
-                    "generate/assign round trip of C03 is NOT covered by any obligation.",
+                    "generate/assign round trip of C03 is covered by a bounded stand-in only (coverage.bounded), by no obligation.",
     ),
 }
